@@ -946,6 +946,15 @@ def qubit_order_sig(cirq, ops):
     return sig
 
 
+def key_order_sig(cirq, ops):
+    """Per-key subsequences of the operations that write or read the key (full operation text)."""
+    sig = {}
+    for o in ops:
+        for k in sorted({str(x) for x in cirq.measurement_key_objs(o)} | {str(x) for x in cirq.control_keys(o)}):
+            sig.setdefault(k, []).append(repr(o))
+    return sig
+
+
 def has_zero_reps(cirq, op):
     """Does unrolling meet a CircuitOperation whose (resolved) repetition count is 0?"""
     if not isinstance(op, cirq.CircuitOperation):
@@ -1182,6 +1191,11 @@ def unroll_defect(cirq, V, name, D, inner_first=False):
     # measurement / control of a key it shares with an operation on OTHER qubits, possibly changing what a control binds to)
     if qubit_order_sig(cirq, r[1].all_operations()) != qubit_order_sig(cirq, flat.all_operations()):
         return 'reorders-operations-on-a-qubit'
+    if key_order_sig(cirq, r[1].all_operations()) == key_order_sig(cirq, flat.all_operations()):
+        # every qubit sees the same gates in the same order (keys erased) and every key sees the same operations in the same order:
+        # what was exchanged are operations that are identical once their keys are erased and share no key - measurements of the
+        # same qubits into different keys, back to back.  They commute (the same projective measurement twice): same meaning.
+        return ''
     return 'reorders-operations-on-a-key'
 
 
